@@ -156,10 +156,11 @@ func lookupKind(name string) *Kind {
 // are deliberately not rows of the table, with the reason (used by the completeness guard).
 func notCovered() map[string]string {
 	return map[string]string{
-		"consensus.ApplyUpdate":  "unexported state: generated by the chain simulator, checked by TestUpdates / TestUpdatesSynthetic",
-		"consensus.RevertUpdate": "unexported state: generated by the chain simulator, checked by TestUpdates / TestUpdatesSynthetic",
-		"consensus.applyUpdateJSON":  "unexported helper of ApplyUpdate's JSON form (covered through it)",
-		"consensus.revertUpdateJSON": "unexported helper of RevertUpdate's JSON form (covered through it)",
+		"consensus.ApplyUpdate":          "unexported state: generated by the chain simulator, checked by TestUpdates / TestUpdatesSynthetic",
+		"consensus.RevertUpdate":         "unexported state: generated by the chain simulator, checked by TestUpdates / TestUpdatesSynthetic",
+		"consensus.applyUpdateJSON":      "unexported helper of ApplyUpdate's JSON form (covered through it)",
+		"consensus.revertUpdateJSON":     "unexported helper of RevertUpdate's JSON form (covered through it)",
+		"consensus.elementLeaf":          "unexported leaf record inside ApplyUpdate/RevertUpdate JSON (covered through them)",
 		"consensus.HardforkDevAddr":      "anonymous member struct of Network (covered through consensus.Network)",
 		"consensus.HardforkTax":          "anonymous member struct of Network (covered through consensus.Network)",
 		"consensus.HardforkStorageProof": "anonymous member struct of Network (covered through consensus.Network)",
@@ -200,7 +201,10 @@ func wideTime(c *gen.Ctx) time.Time {
 		span := uint64(gen.MaxUnix - minUnix + 1)
 		s = minUnix + int64(c.Seed()%span)
 	}
-	return time.Unix(s, 0).UTC()
+	if s == (time.Time{}).Unix() {
+		return time.Time{} // the zero time keeps its exact representation (as in gen.Load)
+	}
+	return time.Unix(s, 0) // TestMain pins time.Local to UTC
 }
 
 var specAlnum = []byte("abcdefghijklmnopqrstuvwxyzABCDEFGHIJKLMNOPQRSTUVWXYZ0123456789")
